@@ -284,6 +284,14 @@ Definition spec_content_type (root : path) (r : request) (p : path) : string :=
   | None => ""%string
   end.
 
+(** An href names the resource at [segs]: its canonical external path, or — for a
+    collection other than the root — that path followed by a slash (RFC 4918 section 5.2
+    says a collection's URL should end in one; sent back as a request path it addresses
+    the same resource). *)
+Definition href_names (h : string) (segs : path) (is_col : bool) : bool :=
+  String.eqb h (external_path segs) ||
+  (is_col && match segs with [] => false | _ => String.eqb h (external_path segs ++ "/") end).
+
 (** [tb q]: the entity tag the server currently announces for the stored file at [q].
     The statement asks that PUT, GET, HEAD and PROPFIND announce "one and the same
     string" for an unmodified resource and that it is accepted back; what the string
@@ -297,7 +305,7 @@ Definition entry_ok_with (tb : path -> string) (r : request) (sb : option node) 
   match local_segs (me_href e) with
   | Ok segs =>
     let q := root ++ segs in
-    String.eqb (me_href e) (external_path segs) && in_scope p depth q &&
+    href_names (me_href e) segs (is_col (M q)) && in_scope p depth q &&
     match M q with
     | None => false
     | Some ACol => (names_only || me_dir e) && String.eqb (me_clen e) "" && String.eqb (me_etag e) "" && String.eqb (me_ctype e) ""
@@ -322,6 +330,10 @@ Fixpoint path_eqb (a b : path) : bool :=
 
 Definition count_href (h : string) (es : list ms_entry) : nat :=
   List.length (filter (fun e => String.eqb (me_href e) h) es).
+
+(** entries whose href names the resource at [segs] *)
+Definition count_named (segs : path) (is_col : bool) (es : list ms_entry) : nat :=
+  List.length (filter (fun e => href_names (me_href e) segs is_col) es).
 
 (** COPY or MOVE where one of source and destination lies properly inside the other: the
     property asks for "some 4xx" there (403 only when they coincide).  The model answers
@@ -377,7 +389,7 @@ Definition spec_ok_with (tb ta : path -> string) (root : path) (sb : option node
       forallb (fun e => Nat.eqb (count_href (me_href e) (r_ms o)) 1%nat) (r_ms o) &&
       forallb (fun q => negb (in_scope p depth q) || negb (mapped (M q)) ||
                         match strip_prefix root q with
-                        | Some segs => Nat.eqb (count_href (external_path segs) (r_ms o)) 1%nat
+                        | Some segs => Nat.eqb (count_named segs (is_col (M q)) (r_ms o)) 1%nat
                         | None => false
                         end) (all_paths sb)
     | _ => true
